@@ -3,6 +3,8 @@ package main
 // Network stub: the node registers nothing; what it sends is kept for the harness to read.
 
 import (
+	"sync/atomic"
+
 	xctx "github.com/xuperchain/xupercore/kernel/common/xcontext"
 	nctx "github.com/xuperchain/xupercore/kernel/network/context"
 	"github.com/xuperchain/xupercore/kernel/network/p2p"
@@ -10,7 +12,11 @@ import (
 )
 
 // stubNet keeps what the node sends (the production code sends from a goroutine of its own).
-type stubNet struct{ sent chan *pb.XuperMessage }
+type stubNet struct {
+	sent    chan *pb.XuperMessage
+	account string // the node's own address (the consensus plugins take it from the network's PeerInfo)
+	regs    int32  // subscribers registered so far (Smr.Start registers three, from a goroutine of its own)
+}
 
 func newStubNet() *stubNet { return &stubNet{sent: make(chan *pb.XuperMessage, 64)} }
 
@@ -29,7 +35,10 @@ func (n *stubNet) SendMessageWithResponse(xctx.XContext, *pb.XuperMessage, ...p2
 func (n *stubNet) NewSubscriber(pb.XuperMessage_MessageType, interface{}, ...p2p.SubscriberOption) p2p.Subscriber {
 	return nil
 }
-func (n *stubNet) Register(p2p.Subscriber) error   { return nil }
+func (n *stubNet) Register(p2p.Subscriber) error {
+	atomic.AddInt32(&n.regs, 1)
+	return nil
+}
 func (n *stubNet) UnRegister(p2p.Subscriber) error { return nil }
 func (n *stubNet) Context() *nctx.NetCtx           { return nil }
-func (n *stubNet) PeerInfo() pb.PeerInfo           { return pb.PeerInfo{} }
+func (n *stubNet) PeerInfo() pb.PeerInfo           { return pb.PeerInfo{Account: n.account} }
